@@ -632,6 +632,12 @@ class ChainMulti(_NoReplay):
         per_chain = lambda cc: mk_sum(_lift(res.n_steps.value), lambda i: res.accepts.fn((cc, i))) / Lr
         yield "acceptance_rate_is_mean_of_per_chain_rates", same(res.acceptance_rate, Sym(mk_sum(self.nc, lambda cc: per_chain(cc)) / z3.RealVal(self.nc)))
         yield "n_chains_recorded", res.n_chains.value == self.nc
+        # n_steps counts the retained states burn_in, burn_in + k, ... < n: ceil((n - b) / k) of them, per chain
+        Lw = _lift(res.n_steps.value)
+        n, b, k = self.n.e, self.b.e, self.th.e
+        yield "n_steps_counts_the_retained_states(ceil((n-b)/k))", z3.And(Lw * k >= n - b, (Lw - 1) * k < n - b)
+        if isinstance(xs, Tensor) and xs.ndim == 2 and isinstance(res.accepts, Tensor) and res.accepts.ndim == 2:
+            yield "every_chain_holds_n_steps_states_and_flags", z3.And(_lift(xs.shape[1]) == Lw, _lift(res.accepts.shape[1]) == Lw)
 
 
 def mentions_const(e, c):
